@@ -457,7 +457,7 @@ try {
         }
         instance.tx = MakeTransactionRef(mtx);
 
-        instance.configure_tx_txin();
+        if (!instance.configure_tx_txin()) abort("the spending input cannot be set up as a taproot script path spend (see above)");
         instance.execdata.m_codeseparator_pos = 0xFFFFFFFFUL;
         instance.execdata.m_codeseparator_pos_init = true;
 
